@@ -218,4 +218,81 @@ theorem parse_print (sidx : Nat) (ts : List Term) :
     · simp only [printToks, List.append_assoc, run_append, h1]; simp [h2, h3]
     · simpa [denote] using a3
 
+/-! ### `MultiVector.__str__`, loop for loop (integer coefficients: `abs(coeff) < eps` is `coeff = 0`, no rounding) -/
+
+/-- one `(grade, name, coeff)` triple of the `zip` the loop runs over; the name is represented by the storage index -/
+structure Entry where
+  grade : Nat
+  idx : Nat
+  c : Int
+
+/-- the loop body: the string built so far is a token list; `continue` leaves it unchanged -/
+def strStep (s : List Tok) (e : Entry) : List Tok :=
+  let seps : List Tok × List Tok :=
+    if s ≠ [] then ([.space, .sign 1, .space], [.space, .sign (-1), .space]) else ([], [.sign (-1)])
+  if e.c = 0 then s
+  else
+    let sep := if e.c < 0 then seps.2 else seps.1
+    let sign : Int := if e.c < 0 then -1 else 1
+    let absCoeff := sign * e.c
+    if e.grade = 0 then s ++ sep ++ [.coeff absCoeff]
+    else s ++ sep ++ [.lparen, .coeff absCoeff, .wedge, .blade e.idx, .rparen]
+
+/-- the last lines: `return s if s else '0'` -/
+def strFinal (s : List Tok) : List Tok := if s ≠ [] then s else [.coeff 0]
+
+def strLoop (es : List Entry) : List Tok := strFinal (es.foldl strStep [])
+
+def Entry.toTerm (e : Entry) : Term := ⟨e.idx, e.grade == 0, e.c⟩
+/-- the terms `__str__` prints: the entries with a non-zero coefficient, in storage order -/
+def printedTerms (es : List Entry) : List Term := (es.filter (fun e => e.c != 0)).map Entry.toTerm
+
+theorem signed_eq_natAbs (c : Int) : (if c < 0 then (-1 : Int) else 1) * c = (c.natAbs : Int) := by
+  split
+  · next h => omega
+  · next h => omega
+
+theorem strStep_nonempty (s : List Tok) (e : Entry) (hs : s ≠ []) (hc : e.c ≠ 0) :
+    strStep s e = s ++ tokNext e.toTerm := by
+  simp only [strStep, hs, hc, ne_eq, not_false_eq_true, if_true, if_false, tokNext, body, Entry.toTerm, signed_eq_natAbs]
+  by_cases hneg : e.c < 0 <;> by_cases hg : e.grade = 0 <;> simp [hneg, hg]
+
+theorem strStep_empty (e : Entry) (hc : e.c ≠ 0) : strStep [] e = tokFirst e.toTerm := by
+  simp only [strStep, hc, ne_eq, not_true_eq_false, if_false, tokFirst, body, Entry.toTerm, signed_eq_natAbs]
+  by_cases hneg : e.c < 0 <;> by_cases hg : e.grade = 0 <;> simp [hneg, hg]
+
+theorem strStep_zero (s : List Tok) (e : Entry) (hc : e.c = 0) : strStep s e = s := by simp [strStep, hc]
+
+theorem tokNext_ne_nil (t : Term) : tokNext t ≠ [] := by simp [tokNext]
+theorem tokFirst_ne_nil (t : Term) : tokFirst t ≠ [] := by
+  unfold tokFirst body; split <;> split <;> simp
+
+theorem foldl_strStep_nonempty (es : List Entry) (s : List Tok) (hs : s ≠ []) :
+    es.foldl strStep s = s ++ ((printedTerms es).map tokNext).flatten := by
+  induction es generalizing s with
+  | nil => simp [printedTerms]
+  | cons e es ih =>
+    by_cases hc : e.c = 0
+    · simp only [List.foldl_cons, strStep_zero s e hc]
+      rw [ih s hs]; simp [printedTerms, hc]
+    · simp only [List.foldl_cons, strStep_nonempty s e hs hc]
+      rw [ih _ (by simp [hs])]
+      simp [printedTerms, hc, List.append_assoc]
+
+/-- **the loop of `__str__` prints exactly `printToks` of the non-zero terms in storage order** — the token stream
+`parse_print_roundtrip` is about -/
+theorem strLoop_eq_printToks (es : List Entry) : strLoop es = printToks (printedTerms es) := by
+  unfold strLoop
+  induction es with
+  | nil => simp [strFinal, printedTerms, printToks]
+  | cons e es ih =>
+    by_cases hc : e.c = 0
+    · simp only [List.foldl_cons, strStep_zero [] e hc]
+      rw [ih]; simp [printedTerms, hc]
+    · simp only [List.foldl_cons, strStep_empty e hc]
+      rw [foldl_strStep_nonempty es _ (tokFirst_ne_nil _)]
+      have : printedTerms (e :: es) = e.toTerm :: printedTerms es := by simp [printedTerms, hc]
+      rw [this]
+      simp [strFinal, printToks, tokFirst_ne_nil]
+
 end Text
